@@ -356,9 +356,57 @@ def regress_worker(job):
     return shard
 
 
+# ------------------------------------------------------------------ storage lifecycle: every short sequence of string operations
+
+LIFECYCLE_CMDS = [b"d", b"a", b"e", b"px", b"c", b"h"]
+
+
+def lifecycle_source(size, term, default, handler):
+    decl = "out %sstr[%d] s0%s;" % ("" if term else "unterminated ", size, (' = "%s"' % default) if default is not None else "")
+    case = ('case {\n "d" -> { delete s0; }\n "a" -> { s0 = "ab"; }\n "e" -> { s0 = ""; }\n "p" -> { s0 += "x"; }\n'
+            ' "c" -> { s0 += [65]; }\n "h" -> { h0(); }\n "q" -> { break; }\n }')
+    if handler:
+        body = "try {\n %s\n }\n catch (outofspace) {\n h0();\n }" % case
+    else:
+        body = case
+    return "%s\nhook h0;\nparser {\n loop {\n %s\n }\n}\n" % (decl, body)
+
+
+def lifecycle_inputs(max_len):
+    import itertools
+    out = []
+    for n in range(1, max_len + 1):
+        for seq in itertools.product(LIFECYCLE_CMDS, repeat=n):
+            out.append(b"".join(seq) + b"q")
+    return out
+
+
+def lifecycle_worker(job):
+    """A little command interpreter over one string (delete, constant / empty assignment, literal append, char append, hook) run on every
+    command sequence up to a length, in all storage configurations under the sanitizers: allocation, release and re-allocation in every order."""
+    (size, term, default, handler, opt), max_len, known = job
+    shard = Shard()
+    src = lifecycle_source(size, term, default, handler)
+    try:
+        check_program(shard, src, [opt], STORAGE_SETS, lifecycle_inputs(max_len), [])
+    except Failure as f:
+        if f.sig in known:
+            shard.known_hits[f.sig] += 1
+        else:
+            shard.failures.append({"sig": f.sig, "what": "lifecycle program: %s" % f.what, "replay": f.replay})
+    shard.event("lifecycle_programs")
+    return shard
+
+
 def main(ctx):
     quick = ctx.tier == "quick"
     known = tuple(ctx.open_keys)
+    variants = [(size, term, default, handler, opt) for size in (3, 2) for term in (True, False) for default in (None, "i")
+                for handler in (False, True) for opt in ("-O0", "-O2", "-O3")]
+    if quick:
+        # a rotating third of the variants (all of them in the thorough tier), always including default + no handler at -O0 / -O2
+        variants = [v for i, v in enumerate(variants) if (i + ctx.seed) % 3 == 0 or (v[2] == "i" and not v[3] and v[0] == 3 and v[4] != "-O3")]
+    ctx.pmap(lifecycle_worker, [(v, 3 if quick else 4, known) for v in variants])
     reg = sorted(glob.glob(os.path.join(common.VERIF_DIR, "regress", "C03", "*.json")))
     ctx.pmap(regress_worker, [(p, known) for p in reg])
     ctx.pmap(oversize_worker, [(ctx.seed * 100003 + 50 + i, 12 if quick else 100, known) for i in range(4)])
@@ -369,11 +417,13 @@ def main(ctx):
     ctx.rule = ("case = (generated string/raw-heavy program, base options) run in all four storage configurations, each built with clang "
                 "ASan+UBSan(+bounds)+LSan, on guided inputs up to 40 bytes (long enough to overflow the 1..8 byte buffers) byte-per-call and under "
                 "drawn chunkings, with end() and free(); evaluations = (storage configuration, input, schedule) executions + oversize-constant "
-                "compilations. Non-trivial: some string reached its capacity in a run; distinct by source.")
+                "compilations. A lifecycle family runs a one-string command interpreter (delete, constant / empty assignment, literal and char append, hook; "
+                "sizes 2-3, with / without default, with / without out-of-space handler, -O0/-O2/-O3) on every command sequence up to length 3 (quick) / 4. "
+                "Non-trivial: some string reached its capacity in a run; distinct by source.")
     ctx.assumptions = ["intra-struct overruns are invisible to ASan; they are caught by the heap storage modes (same program), the guard words "
                        "and the per-call comparison with the model", "inputs with C-undefined arithmetic are skipped",
                        "post-DONE calls are not made"]
-    ctx.required_classes = ["programs", "class:capacity_reached", "oversize:default", "oversize:assign", "boundary_runs"]
+    ctx.required_classes = ["programs", "class:capacity_reached", "oversize:default", "oversize:assign", "boundary_runs", "lifecycle_programs"]
 
 
 def replay(ctx, data):
